@@ -193,6 +193,12 @@ func RunHistories(c *Ctx, d *HDriver, maxDepth int, rep *Report) *HStats {
 					// a finding is identified by driver, violated clause and the failing history;
 					// only the first few histories per clause are kept as separate findings
 					ck := d.Name + ": " + clause(v)
+					if strings.HasPrefix(v, "!") {
+						// the oracle has identified the failing input itself (operation and
+						// what it met): the clause is the specific key, independent of the prefix
+						rep.Add(d.Name+": "+clause(v)[1:], v[1:]+"\nhistory: "+strings.Join(h, " ; "), map[string]any{"driver": d.Name, "history": h})
+						continue
+					}
 					nPerClause[ck]++
 					if nPerClause[ck] <= 400 {
 						rep.Add(ck+" @ "+CompactHistory(h), v+"\nhistory: "+strings.Join(h, " ; "), map[string]any{"driver": d.Name, "history": h})
